@@ -162,6 +162,16 @@ func (c *Chain) cancelSweepBlock(hs HonestStep, validate bool) {
 		res := RunTransition(c.Spec, pre, nil, sb, hs.Blk.Fork, validate, hs.Engine, -1, k)
 		c.cancelLine(hs.PreID, hs.BlkID, hs.Blk.Slot, k, base.Polls, &res, baseBytes, fmt.Sprintf("engine=%s validate=%d", hs.Engine, v))
 	}
+	// a context that ended by its DEADLINE (Err() = context.DeadlineExceeded) at the last two polls
+	for k := base.Polls - 2; k < base.Polls; k++ {
+		if k < 0 {
+			continue
+		}
+		res := RunTransitionCtx(c.Spec, pre, nil, sb, hs.Blk.Fork, validate, hs.Engine, -1, k, true)
+		c.cancelLine(hs.PreID, hs.BlkID, hs.Blk.Slot, k, base.Polls, &res, baseBytes, fmt.Sprintf("engine=%s validate=%d ctxerr=deadline", hs.Engine, v))
+		c.Stats.Inc("cancel_deadline_records")
+		c.Stats.Inc("cancel_deadline." + hs.Blk.Fork.String())
+	}
 	c.Stats.Inc("cancel_sweeps_trans")
 	c.Stats.Inc(fmt.Sprintf("cancel_sweeps_trans_validate%d", v))
 }
